@@ -510,7 +510,7 @@ std::vector<Sub> vh_subs() {
   {
     Sub s;
     s.name = "precomp_buffers";
-    s.fields = {{"k", 0, 12}, {"layout", 0, 1}, {"dir", 0, 1}, {"cfg", 0, 1}, {"nbuf", 1, 3}, {"b", 0, 2}, {"fam", 0, NFAM - 1}, {"cexp", -40, 40},
+    s.fields = {{"k", 0, 16}, {"layout", 0, 1}, {"dir", 0, 1}, {"cfg", 0, 1}, {"nbuf", 1, 3}, {"b", 0, 2}, {"fam", 0, NFAM - 1}, {"cexp", -40, 40},
                 {"idx", 0, 65535}, F_SEED};
     s.run = [](const Vals& v, Ctx& c) {
       Case cs;
